@@ -1,6 +1,7 @@
 import SciVerif.Drive.C11
 import SciVerif.Model.C10
 import SciVerif.Model.C10Spec
+import SciVerif.Model.C10Heap
 open Lean SciVerif.Drive SciVerif.C11.Drive
 
 namespace SciVerif.C10.Drive
@@ -118,44 +119,40 @@ def formula (j : Json) : Except String Json := do
     ("evalF", jarr (fun (kp : Str × Rat) => Json.arr #[jchars kp.1, jrat kp.2]) ev),
     ("model", substanceJson natural txt)])
 
-/-- value semantics of a history of operations on substances (objects are numbered in order of
-    creation): `["new",[[key,n],…]]`, `["add",i,key,n]` (in place), `["plus",i,j]`, `["mul",i,x]`,
-    `["pluselem",i,key,n]`; the answer lists all objects after every operation -/
-def opsRun : List Json → List (Comps Rat) → Except String (List (List (Comps Rat)))
+/-- a history of operations on composites in the object store (composites are numbered in order
+    of creation): `["new",[[key,n],…]]`, `["add",i,key,n]` (in place), `["plus",i,j]`, `["mul",i,x]`,
+    `["pluselem",i,key,n]`; the answer lists what every composite reads after every operation -/
+def opsRun : List Json → Heap → Except String (List (List (Comps Rat)))
   | [], _ => pure []
-  | op :: rest, objs => do
+  | op :: rest, h => do
     let a ← getList op
-    let setAt := fun (i : Nat) (v : Comps Rat) => objs.zipIdx.map fun (o, k) => if k == i then v else o
     let getKN := fun (kj nj : Json) => do
       let k ← kj.getStr?
       let n ← getRat nj
       pure (k.toList, n)
-    let objs' ← match a with
+    let h' ← match a with
       | [Json.str "new", l] => do
         let kvs ← (← getList l).mapM fun kv => do
           match ← getList kv with
           | [k, n] => getKN k n
           | _ => throw "bad pair"
-        pure (objs ++ [kvs.foldl (fun acc kp => cadd acc kp.1 kp.2) []])
+        pure (h.new kvs)
       | [Json.str "add", i, k, n] => do
-        let i ← i.getNat?
         let (k, n) ← getKN k n
-        pure (setAt i (cadd (objs.getD i []) k n))
-      | [Json.str "plus", i, j] => do
-        pure (objs ++ [cplus (objs.getD (← i.getNat?) []) (objs.getD (← j.getNat?) [])])
-      | [Json.str "mul", i, x] => do
-        pure (objs ++ [cmul (objs.getD (← i.getNat?) []) (← getRat x)])
+        pure (h.add (← i.getNat?) k n)
+      | [Json.str "plus", i, j] => do pure (h.plus (← i.getNat?) (← j.getNat?))
+      | [Json.str "mul", i, x] => do pure (h.mul (← i.getNat?) (← getRat x))
       | [Json.str "pluselem", i, k, n] => do
         let (k, n) ← getKN k n
         -- `_add` with a bare component: the left operand's entries, then `add(other.expr, other.proportion)`
-        pure (objs ++ [cadd (caddAll [] (objs.getD (← i.getNat?) [])) k n])
+        pure ((h.alloc.addAll h.nobj (h.read (← i.getNat?))).add h.nobj k n)
       | _ => throw s!"bad op {op}"
-    let tail ← opsRun rest objs'
-    pure (objs' :: tail)
+    let tail ← opsRun rest h'
+    pure (((List.range h'.nobj).map h'.read) :: tail)
 
 def opsK (j : Json) : Except String Json := do
   let ops ← getList (← field j "ops")
-  let snaps ← opsRun ops []
+  let snaps ← opsRun ops Heap.empty
   pure (jarr (jarr (jarr fun (kp : Str × Rat) => Json.arr #[jchars kp.1, jrat kp.2])) snaps)
 
 def handle (j : Json) : Except String Json := do
